@@ -185,6 +185,8 @@ let dispatch (f : Stdlib.String.t list) : Stdlib.String.t =
   | ["split_ws"; i] -> hexlist (split_ws (unhex i))
   | ["mv.parse"; b] ->
     (match mime_version_parse (unhex b) with Some (x, y) -> Printf.sprintf "some\t%d\t%d\t%s" (int_of_n x) (int_of_n y) (hex (mime_version_display x y)) | None -> "none")
+  | ["cd.parse"; b] ->
+    (match cd_parse (unhex b) with Some (k, Some f) -> "some\t" ^ hex (cd_raw k f) | Some (k, None) -> "some\t" ^ hex k | None -> "none")
   | ["cte.parse"; b] ->
     (match cte_parse (unhex b) with Some e -> "some\t" ^ hex (cte_display e) | None -> "none")
   | ["date.display"; secs] ->
